@@ -292,6 +292,9 @@ pub struct EnumSpec {
     pub type_param: bool,
     pub const_param: bool,
     pub where_clause: bool,
+    /// type / const parameters carry defaults (`T = ..`, `const N: usize = 3`)
+    #[serde(default)]
+    pub generic_defaults: bool,
     /// tokens inside `#[repr(..)]`, e.g. "u8", "align(4), u16"; `repr_int` is the integer type in it
     pub repr: Option<String>,
     pub repr_int: Option<String>,
@@ -316,6 +319,7 @@ impl EnumSpec {
             type_param: false,
             const_param: false,
             where_clause: false,
+            generic_defaults: false,
             repr: None,
             repr_int: None,
             vis: "pub".into(),
